@@ -47,15 +47,15 @@ func (d *dumper) val(v reflect.Value, depth int) {
 		}
 		d.val(v.Elem(), depth)
 	case reflect.Ptr:
+		if (v.Type() == objT || v.Type() == scopeT) && !d.o.Objects {
+			d.sb.WriteString("(erased)\n")
+			return
+		}
 		if v.IsNil() {
 			d.sb.WriteString("nil\n")
 			return
 		}
 		if v.Type() == objT || v.Type() == scopeT {
-			if !d.o.Objects {
-				d.sb.WriteString("(erased)\n")
-				return
-			}
 			id, seen := d.ids[v.Pointer()]
 			if !seen {
 				id = len(d.ids) + 1
@@ -82,13 +82,16 @@ func (d *dumper) val(v reflect.Value, depth int) {
 		d.sb.WriteString("{\n")
 		for i := 0; i < v.NumField(); i++ {
 			f := v.Type().Field(i)
+			if tn := v.Type().Name(); (tn == "File" || tn == "Package") && (f.Name == "Imports" || f.Name == "Unresolved") {
+				continue // derived lists that alias nodes of the tree; not consulted by printing
+			}
 			fmt.Fprintf(&d.sb, "%s %s: ", ind, f.Name)
 			d.val(v.Field(i), depth+1)
 		}
 		d.sb.WriteString(ind + "}\n")
 	case reflect.Slice:
-		if v.IsNil() {
-			d.sb.WriteString("nil-slice\n")
+		if v.Len() == 0 {
+			d.sb.WriteString("[0]\n") // nil and empty slices are the same list
 			return
 		}
 		fmt.Fprintf(&d.sb, "[%d]\n", v.Len())
